@@ -279,3 +279,47 @@ Proof.
   - intros Hsmall. rewrite Z.mod_small in Hmod by lia. lia.
   - apply Forall_forall. intros r Hin. rewrite forallb_forall in Htag. apply Htag, Hin.
 Qed.
+
+(* ---------- distinct spent outputs ---------- *)
+
+Lemma nodup_dedup seen ins :
+  nodup_ops seen ins = true -> dedup_from seen (map i_op ins) = map i_op ins.
+Proof.
+  revert seen. induction ins as [|i r IH]; intros seen; cbn [nodup_ops map dedup_from]; [reflexivity|].
+  rewrite andb_true_iff, negb_true_iff. intros [Hm Hr]. rewrite Hm. f_equal. apply IH, Hr.
+Qed.
+
+Lemma references_spent utxo ins :
+  check_inputs ins = true -> exact_sum (references utxo ins) = spent_total utxo ins.
+Proof.
+  unfold check_inputs, spent_total, spent_outpoints, references. rewrite !andb_true_iff.
+  intros [_ Hn]. rewrite (nodup_dedup _ _ Hn), map_map. reflexivity.
+Qed.
+
+(* accepted => exact outputs <= exact sum over the DISTINCT outpoints spent *)
+Theorem accept_tx_no_inflation k pr utxo ins outs :
+  0 <= p_minfee pr ->
+  accept_tx k pr utxo ins outs = true ->
+  exact_sum (map o_val outs) <= spent_total utxo ins.
+Proof.
+  intros Hm. unfold accept_tx. rewrite andb_true_iff. intros [Hi Ha].
+  rewrite <- (references_spent utxo ins Hi). apply (accept_no_inflation k pr); assumption.
+Qed.
+
+(* an outpoint named twice - whatever the Sequence fields - is rejected *)
+Theorem repeated_outpoint_rejected pre mid post a b :
+  i_op a = i_op b -> check_inputs (pre ++ a :: mid ++ b :: post) = false.
+Proof.
+  intros E. unfold check_inputs.
+  assert (G : forall seen l, nodup_ops seen (l ++ a :: mid ++ b :: post) = false).
+  { intros seen l. revert seen. induction l as [|x l IH]; intros seen; cbn [app nodup_ops].
+    - assert (H2 : forall s m, memz (i_op a) s = true -> nodup_ops s (m ++ b :: post) = false).
+      { intros s m. revert s. induction m as [|y m IHm]; intros s Hs; cbn [app nodup_ops].
+        - rewrite <- E, Hs. reflexivity.
+        - destruct (memz (i_op y) s); [reflexivity|]. cbn [negb andb]. apply IHm.
+          cbn [memz existsb]. fold (memz (i_op a) s). rewrite Hs. apply orb_true_r. }
+      destruct (memz (i_op a) seen); [reflexivity|]. cbn [negb andb]. apply H2.
+      cbn [memz existsb]. rewrite Z.eqb_refl. reflexivity.
+    - destruct (memz (i_op x) seen); [reflexivity|]. cbn [negb andb]. apply IH. }
+  rewrite G. apply andb_false_r.
+Qed.
